@@ -390,8 +390,11 @@ def _build_don_loader(cfg, seed):
     torch.manual_seed(seed)
     branch, trunk, out = _don_data(cfg)
     sb, st, so = _don_spaces(cfg)
-    return DeepONetDataLoader(branch, trunk, out, sb, st, so, cfg["bb"], cfg["bt"],
-                              shuffle_branch=cfg["shuffle_b"], shuffle_trunk=cfg["shuffle_t"])
+    user = [(nm, t, t.detach().clone()) for nm, t in (("branch", branch), ("trunk", trunk), ("output", out)) if isinstance(t, torch.Tensor)]
+    loader = DeepONetDataLoader(branch, trunk, out, sb, st, so, cfg["bb"], cfg["bt"],
+                                shuffle_branch=cfg["shuffle_b"], shuffle_trunk=cfg["shuffle_t"])
+    loader._tpmon_user = user          # the caller's own tensors (a second loader may be built from them)
+    return loader
 
 
 def _eff(n, b):
@@ -565,6 +568,12 @@ def _run_don_cfg(cfg, seed, passes, V, res):
     for p in rec:
         idb = _judge_don_pass(cfg, p, V, res)
     _cnt(res, "passes", len(rec))
+    for nm, t, snap_ in getattr(loader, "_tpmon_user", []):
+        _cnt(res, "user_tensors_compared")
+        if t.shape != snap_.shape or not torch.equal(t, snap_):
+            V.add("user_data_modified", "the %s tensor handed to DeepONetDataLoader %s was changed by the loader (%d entries differ): a "
+                  "second loader built from the same tensors gets mispaired data" % (nm, cfg, int((t != snap_).sum()) if t.shape == snap_.shape else -1),
+                  tensor=nm, **_don_mech(cfg))
     return loader, idb
 
 
